@@ -23,6 +23,7 @@ MODULES = {
     "C17": "props.c17",
     "C18": "props.c18",
     "C19": "props.c19",
+    "C20": "props.c20",
 }
 
 if __name__ == "__main__":
